@@ -105,6 +105,13 @@ fn etag_list_sym() {
     let buf: [u8; NL] = kani::any();
     let n: usize = kani::any();
     kani::assume(n <= NL);
+    // bytes a header value can contain at all (http::HeaderValue rejects the rest), so that a
+    // counterexample is a request the native replayer can send
+    let mut q = 0;
+    while q < NL {
+        kani::assume(buf[q] == 9 || (buf[q] >= 0x20 && buf[q] != 0x7f));
+        q += 1;
+    }
     let b = &buf[..n];
     let mut pos = [(0usize, 0usize); 4];
     let r = ref_list(b, &mut pos);
